@@ -59,10 +59,20 @@ def check_run_loop(run: Run, prog: Program) -> None:
                   "self._run() must be awaited in place (never spawned as a task), so two runs "
                   "cannot overlap", node=n.ast, file=fn.file)
 
-    dfn = prog.func(f"{ACTOR}._delay_if_restart")
-    delay_params = dfn.params[1:]
-    if not delay_params:
-        raise AnalysisError(f"{dfn.qual}: the restart-iteration parameter is missing")
+    # The restart delay is bound by role: an awaited asyncio.sleep in the loop itself, or an awaited
+    # private coroutine of the actor that sleeps (historically `_delay_if_restart`; it may be renamed,
+    # or inlined into the loop, in which case the normaliser / this rule sees the sleep directly).
+    is_sleep = lambda c: dotted(c.func) == "asyncio.sleep"  # noqa: E731
+    actor_cls = prog.cls(ACTOR)
+    helper_delays = []  # (node, call, helper)
+    for i, c in fl.calls(lambda c: isinstance(c.func, ast.Attribute) and u(c.func.value) == "self"
+                         and not is_run(c)):
+        m = prog.resolve_method(actor_cls, c.func.attr)  # type: ignore[attr-defined]
+        if m is not None and m.is_async and any(
+                isinstance(x, ast.Await) and isinstance(x.value, ast.Call) and is_sleep(x.value)
+                for x in walk_no_nested(m.node)):
+            helper_delays.append((i, c, m))
+    inline_sleeps = fl.calls(is_sleep)
 
     for r in run_nodes:
         rn = cfg.nodes[r]
@@ -220,24 +230,32 @@ def check_run_loop(run: Run, prog: Program) -> None:
                   f"the restart decision reads `{ctr}` after it was incremented for this failure "
                   "(one restart fewer than the limit)", node=gast, file=fn.file,
                   path=fl.fmt(stale), instance=f"{q}: limit test reads {ctr} before the increment")
-        # (e) the delay lies between the increment and the next _run(), and gets the counter
-        is_delay = lambda c: method_call(c, "self", "_delay_if_restart")  # noqa: E731
-        delays = fl.calls(is_delay)
-        delay_nodes = [i for i, c in delays if fl.awaited(i, c)]
+        # (e) the delay lies between the increment and the next _run(), and depends on the counter
+        delay_nodes = [i for i, c, _ in helper_delays if fl.awaited(i, c)] \
+            + [i for i, c in inline_sleeps if fl.awaited(i, c)]
+        all_awaited = len(delay_nodes) == len(helper_delays) + len(inline_sleeps)
+        restarting = fl.consistent(positive(ctr, True), normal=True)  # after the increment ctr > 0
         wit = None
         for x in incs:
-            wit = cfg.path(x, run_nodes, avoid=delay_nodes, edge_ok=normal_edge, include_src=False)
+            wit = cfg.path(x, run_nodes, avoid=delay_nodes, edge_ok=restarting, include_src=False)
             if wit:
                 break
-        ok_arg = all(
-            set(positional(c, delay_params)) == {delay_params[0]}
-            and fl.text(i, positional(c, delay_params)[delay_params[0]]) == ctr
-            for i, c in delays)
-        run.check(bool(delay_nodes) and len(delay_nodes) == len(delays) and wit is None and ok_arg,
+        ok_arg = True
+        for i, c, m in helper_delays:
+            hp = m.params[1:]
+            args = positional(c, hp)
+            if len(hp) != 1 or set(args) != {hp[0]} or fl.text(i, args[hp[0]]) != ctr:
+                ok_arg = False
+        run.check(bool(delay_nodes) and all_awaited and wit is None and ok_arg,
                   "C10.RESTART", q, "restart delay",
-                  f"a restart path reaches _run() without awaiting _delay_if_restart({ctr})",
+                  f"a restart path reaches _run() without awaiting the restart delay for `{ctr}`",
                   node=gast, file=fn.file, path=fl.fmt(wit),
-                  instance=f"{q}: every restart passes _delay_if_restart({ctr}) before _run()")
+                  instance=f"{q}: every restart passes the restart delay ({ctr}) before _run()")
+        # the delay really sleeps RESTART_DELAY when the counter is > 0, and only then
+        for m in {id(m): m for _, _, m in helper_delays}.values():
+            _check_delay_guard(run, _flow(run, prog, m), m.params[1], entry_only=False)
+        if inline_sleeps:
+            _check_delay_guard(run, fl, ctr, entry_only=True, stop=run_nodes)
         # initial value of the counter is 0 on every way into the first _run()
         first_part = cfg.reachable([cfg.entry], avoid=run_nodes, edge_ok=normal_edge)
         init = [x for x in sorted(first_part)
@@ -259,22 +277,30 @@ def check_run_loop(run: Run, prog: Program) -> None:
     # ---- handler order: the first handler able to catch a cancellation must not be able to loop
     # (covered semantically by C10.CANCEL above through the exc:C edge)
 
-    # ---- _delay_if_restart really delays for iteration > 0, and only then
-    dfl = _flow(run, prog, dfn)
-    run.analysed(dfn.qual)
+
+def _check_delay_guard(run: Run, dfl: Flow, param: str, entry_only: bool,
+                       stop: list[int] | None = None) -> None:
+    """The awaited asyncio.sleep of `dfl` happens iff `param` > 0 and lasts RESTART_DELAY.
+
+    Helper form (`entry_only=False`): under param > 0 every normal path entry -> exit sleeps, under
+    param == 0 none does.  Inline form (`entry_only=True`, inside the run loop): the way from the
+    entry to the first `_run()` (`stop`) never sleeps while the counter is 0; that every restart
+    path sleeps is rule (e) of the caller."""
     dcfg = dfl.cfg
-    param = delay_params[0]
-    sleeps = [(i, c) for i, c in dfl.calls(lambda c: dotted(c.func) == "asyncio.sleep")
-              if dfl.awaited(i, c)]
+    is_sleep = lambda c: dotted(c.func) == "asyncio.sleep"  # noqa: E731
+    sleeps = [(i, c) for i, c in dfl.calls(is_sleep) if dfl.awaited(i, c)]
     sleep_nodes = [i for i, _ in sleeps]
     ok = False
     wit = None
     detail = "no awaited asyncio.sleep found"
     if sleeps:
-        rebound = [x.id for x in dcfg.nodes if any(u(w) == param for w in node_writes(dcfg, x.id))]
-        wit = dcfg.path(dcfg.entry, [dcfg.exit], avoid=sleep_nodes,
-                        edge_ok=dfl.consistent(positive(param, True), normal=True))
-        early = dcfg.path(dcfg.entry, sleep_nodes,
+        wit = None
+        rebound: list[int] = []
+        if not entry_only:
+            rebound = [x.id for x in dcfg.nodes if any(u(w) == param for w in node_writes(dcfg, x.id))]
+            wit = dcfg.path(dcfg.entry, [dcfg.exit], avoid=sleep_nodes,
+                            edge_ok=dfl.consistent(positive(param, True), normal=True))
+        early = dcfg.path(dcfg.entry, sleep_nodes, avoid=stop or [],
                           edge_ok=dfl.consistent(positive(param, False), normal=True))
         ok = wit is None and early is None and not rebound
         if wit is not None:
@@ -283,7 +309,7 @@ def check_run_loop(run: Run, prog: Program) -> None:
             wit = early
             detail = f"the first run ({param} == 0) is delayed: the delay guard is not `{param} > 0`"
         elif rebound:
-            detail = f"`{param}` is re-bound inside {dfn.name}"
+            detail = f"`{param}` is re-bound inside {dfl.fn.name}"
         # the sleep duration derives from RESTART_DELAY
         for i, c in sleeps:
             arg = positional(c, ["delay", "result"]).get("delay")
@@ -292,9 +318,9 @@ def check_run_loop(run: Run, prog: Program) -> None:
                                       for x in ast.walk(src)):
                 ok = False
                 detail = "sleep duration does not derive from RESTART_DELAY"
-    run.check(ok, "C10.RESTART", dfn.qual, "restart delay guard", detail, node=dfn.node,
-              file=dfn.file, path=dfl.fmt(wit),
-              instance=f"{dfn.qual}: sleeps RESTART_DELAY iff iteration > 0")
+    run.check(ok, "C10.RESTART", dfl.qual, "restart delay guard", detail, node=dfl.fn.node,
+              file=dfl.file, path=dfl.fmt(wit),
+              instance=f"{dfl.qual}: sleeps RESTART_DELAY iff {param} > 0")
 
 
 def _is_plus_one(stmt: ast.AST | None, name: str) -> bool:
@@ -471,6 +497,100 @@ def _second_of_pair(fl: Flow, nid: int, call: ast.Call, index: int) -> str | Non
         if inner is call:
             return u(tgt)
     return None
+
+
+def _error_comprehension(fl: Flow, nid: int, rhs: ast.AST, done_name: str) -> ast.AST | None:
+    """`[e for e in (H(t) for t in done) if e is not None]` (or with `e := H(t)` in the filter, or
+    `map(H, done)` as the source): the callee expression H, else None."""
+    comp = fl.expand(nid, rhs)
+    if isinstance(comp, ast.Call) and isinstance(comp.func, ast.Name) and comp.func.id == "list" \
+            and len(comp.args) == 1 and not comp.keywords:
+        comp = comp.args[0]
+    if not isinstance(comp, (ast.ListComp, ast.GeneratorExp)) or len(comp.generators) != 1:
+        return None
+    gen = comp.generators[0]
+    if gen.is_async or not isinstance(comp.elt, ast.Name) or len(gen.ifs) != 1:
+        return None
+    x = comp.elt.id
+    flt = gen.ifs[0]
+
+    def applied(call: ast.AST, var: str) -> ast.AST | None:
+        if isinstance(call, ast.Call) and [u(a) for a in call.args] == [var] and not call.keywords:
+            return call.func
+        return None
+
+    # filter `(x := H(t)) is not None` over the finished tasks themselves
+    if isinstance(flt, ast.Compare) and len(flt.ops) == 1 and isinstance(flt.ops[0], ast.IsNot) \
+            and isinstance(flt.left, ast.NamedExpr) and u(flt.left.target) == x \
+            and u(flt.comparators[0]) == "None" and isinstance(gen.target, ast.Name) \
+            and u(strip_wrappers(gen.iter)) == done_name:
+        return applied(flt.left.value, gen.target.id)
+    if not (isinstance(gen.target, ast.Name) and gen.target.id == x
+            and canon(flt) == ("isnot", frozenset({x, "None"}))):
+        return None
+    src = strip_wrappers(gen.iter)
+    if isinstance(src, (ast.GeneratorExp, ast.ListComp)) and len(src.generators) == 1:
+        g = src.generators[0]
+        if not g.ifs and not g.is_async and isinstance(g.target, ast.Name) \
+                and u(strip_wrappers(g.iter)) == done_name:
+            return applied(src.elt, g.target.id)
+    if isinstance(src, ast.Call) and isinstance(src.func, ast.Name) and src.func.id == "map" \
+            and len(src.args) == 2 and not src.keywords and u(strip_wrappers(src.args[1])) == done_name:
+        return src.args[0]
+    return None
+
+
+def _resolve_helper(prog: Program, fl: Flow, callee: ast.AST):  # type: ignore[no-untyped-def]
+    """FuncInfo of `self._h` / `cls._h` / `Class._h` / module-level `_h` as seen from `fl`."""
+    fn = fl.raw
+    if isinstance(callee, ast.Name):
+        return fn.module.functions.get(callee.id)
+    if isinstance(callee, ast.Attribute) and isinstance(callee.value, ast.Name) and fn.cls is not None \
+            and callee.value.id in ("self", "cls", fn.cls.name):
+        return prog.resolve_method(fn.cls, callee.attr)
+    return None
+
+
+def _returns_error_or_none(hfl: Flow) -> tuple[bool, str]:
+    """The helper reads `<task>.result()` under a handler that catches every kind of exception and
+    returns the caught exception, and returns None when the task ended without error."""
+    cfg = hfl.cfg
+    node = hfl.fn.node
+    params = [a.arg for a in node.args.posonlyargs + node.args.args]
+    if params and params[0] in ("self", "cls") and not any(
+            isinstance(d, ast.Name) and d.id == "staticmethod" for d in node.decorator_list):
+        params = params[1:]
+    if len(params) != 1:
+        return False, f"{hfl.qual}: expected exactly one task parameter"
+    task = params[0]
+    res = nodes_with_call(cfg, lambda c: method_call(c, task, "result") and not c.args and not c.keywords)
+    if not res or cfg.path(cfg.entry, [cfg.exit], avoid=res) is not None:
+        return False, "task.result() is not read for every finished task"
+    rets = [n.id for n in cfg.nodes if isinstance(n.ast, ast.Return)]
+
+    def returned(nid: int) -> str:
+        v = cfg.nodes[nid].ast.value  # type: ignore[union-attr]
+        return "None" if v is None else hfl.text(nid, v)
+
+    for x in res:
+        for m, lab in cfg.succ[x]:
+            if not lab.startswith("exc:"):
+                # no error: only None is returned
+                tail = cfg.reachable([m], edge_ok=normal_edge)
+                if any(returned(r) != "None" for r in rets if r in tail):
+                    return False, "a task that ended without error is reported as an error"
+                continue
+            hn = cfg.nodes[m]
+            if hn.kind != "handler":
+                return False, (f"an error of a finished task ({lab}) escapes wait() uncollected — "
+                               "remaining tasks are not reported")
+            name = hn.ast.name  # type: ignore[union-attr]
+            side = cfg.reachable([m], edge_ok=normal_edge)
+            good = [r for r in rets if r in side and name is not None and returned(r) == name]
+            if name is None or any(r in side and r not in good for r in rets) \
+                    or cfg.path(m, [cfg.exit], avoid=good, edge_ok=normal_edge) is not None:
+                return False, "a task error is caught but not collected"
+    return True, ""
 
 
 def check_stop(run: Run, prog: Program) -> None:
@@ -664,6 +784,27 @@ def check_stop(run: Run, prog: Program) -> None:
                       "self._tasks = self._tasks - done",
                       "wait() removes tasks other than the finished ones from self._tasks",
                       node=wt.node, file=wt.file)
+            # the group that is raised, and the list of errors it carries (followed through aliases)
+            raises = []
+            lst = None
+            lst_at = None
+            for n in cfg.nodes:
+                if isinstance(n.ast, ast.Raise) and n.ast.exc is not None:
+                    exc: ast.AST | None = n.ast.exc
+                    at = n.id
+                    if isinstance(exc, ast.Name):
+                        d = fl.unique_def(n.id, exc.id)
+                        at, exc = d if d is not None else (at, None)
+                    if isinstance(exc, ast.Call) and callee_tail(exc) == "BaseExceptionGroup":
+                        raises.append(n.id)
+                        if len(exc.args) == 2 and not exc.keywords:
+                            lst, lst_at = u(exc.args[1]), at
+            while lst is not None and lst_at is not None and lst.isidentifier():
+                d = fl.unique_def(lst_at, lst)
+                if d is None or not isinstance(d[1], ast.Name) or not fl._stable(d[0], lst_at, d[1], lst):
+                    break
+                lst_at, lst = d[0], d[1].id
+            fl.pin(lst)
             # every done task's result is collected under a handler that catches everything
             fors = [n for n in cfg.nodes if n.kind == "for" and isinstance(n.ast, ast.For)
                     and u(strip_wrappers(fl.expand(n.id, n.ast.iter))) == done_name]
@@ -671,8 +812,10 @@ def check_stop(run: Run, prog: Program) -> None:
             wit = None
             detail = "no loop over the finished tasks"
             collectors: set[str] = set()
+            after: list[int] = []
             if len(fors) == 1:
                 f = fors[0]
+                after = [m for m, lab in cfg.succ[f.id] if lab == "done"]
                 tv = u(f.ast.target)  # type: ignore[union-attr]
                 res = nodes_with_call(cfg, lambda c: method_call(c, tv, "result"))
                 detail = "task.result() is not read for every finished task"
@@ -707,22 +850,25 @@ def check_stop(run: Run, prog: Program) -> None:
                                     for i, c in fl.calls(lambda c: callee_tail(c) == "append"):
                                         if i in app:
                                             collectors.add(u(c.func.value))  # type: ignore[attr-defined]
+            elif not fors and lst and lst.isidentifier() and raises:
+                # comprehension form: errors = [e for e in (error_of(t) for t in done) if e is not None]
+                d = fl.unique_def(raises[0], lst)
+                detail = "the list of task errors is not built from every finished task"
+                if d is not None:
+                    helper = _error_comprehension(fl, d[0], d[1], done_name)
+                    target = _resolve_helper(prog, fl, helper) if helper is not None else None
+                    if target is not None:
+                        hfl = _flow(run, prog, target)
+                        ok_r, detail = _returns_error_or_none(hfl)
+                        if ok_r:
+                            collectors.add(lst)
+                            after = [m for m, lab in cfg.succ[d[0]] if normal_edge(d[0], m, lab)]
             run.check(ok_r, "C10.STOP", fl.qual, "collect task.result() of every finished task",
                       detail, node=wt.node, file=wt.file, path=fl.fmt(wit))
             # raise group iff any error
-            raises = []
-            lst = None
-            for n in cfg.nodes:
-                if isinstance(n.ast, ast.Raise) and n.ast.exc is not None:
-                    exc = fl.expand(n.id, n.ast.exc)
-                    if isinstance(exc, ast.Call) and callee_tail(exc) == "BaseExceptionGroup":
-                        raises.append(n.id)
-                        lst = u(exc.args[1]) if len(exc.args) == 2 and not exc.keywords else None
             ok_g = False
             wit = None
-            fl.pin(lst)
-            if len(raises) == 1 and lst and len(fors) == 1 and collectors == {lst}:
-                after = [m for m, lab in cfg.succ[fors[0].id] if lab == "done"]
+            if len(raises) == 1 and lst and after and collectors == {lst}:
                 e_some = fl.consistent(nonempty(lst, True), normal=True)
                 e_none = fl.consistent(nonempty(lst, False), normal=True)
                 for a in after:
@@ -730,7 +876,7 @@ def check_stop(run: Run, prog: Program) -> None:
                     wit = wit or cfg.path(a, [cfg.exit] + aw_nodes, avoid=raises, edge_ok=e_some)
                     # none collected: nothing is raised
                     wit = wit or cfg.path(a, raises, avoid=aw_nodes, edge_ok=e_none)
-                ok_g = bool(after) and wit is None and any(
+                ok_g = wit is None and any(
                     raises[0] in cfg.reachable([a], edge_ok=e_some) for a in after)
             run.check(ok_g, "C10.STOP", fl.qual, "raise BaseExceptionGroup iff errors were collected",
                       "wait() does not surface the collected task errors exactly when there are any",
